@@ -550,7 +550,7 @@ def _shared_selection(tier, seed):
     sample of the classical ones (reference derivation applies) and of the rest, plus seeded random grammars"""
     base = [g for g in corpus.systematic(tier) if "maybe_loop" not in g.tags]
     th = tier == "thorough"
-    s_act, s_cls, s_rest = (4, 12, 48) if th else (1, 3, 12)
+    s_act, s_cls, s_rest = (4, 12, 48) if th else (2, 3, 12)
     sel = []
     cnt = {"act": 0, "cls": 0, "rest": 0}
     for g in base:
